@@ -16,6 +16,7 @@
  * message, rfbUpdateClient, rfbSendFramebufferUpdate), i.e. exactly what rfbProcessEvents
  * would call, one at a time. */
 #include "vsess.h"
+#include <rfb/rfbclient.h>
 #include <ctype.h>
 #include <stdarg.h>
 
@@ -37,6 +38,15 @@ static int dead;           /* rest of the case is skipped (model: explicit error
 static int free_old = 1;   /* newfb: free the old buffer immediately */
 
 static char wire[MAXC][8192];
+/* "enc" cases: every peer is a real LibVNCClient decoder (any pixel encoding: RRE, CoRRE, Hextile, Zlib,
+ * Tight, ZlibHex, Ultra, TRLE, ZRLE ...).  The harness still owns the connection: it reads the server's bytes,
+ * forwards them into a private socketpair whose other end is the rfbClient's socket, lets the client library
+ * decode (HandleRFBServerMessage) and throws away whatever the client library writes by itself (it asks
+ * for an incremental update after each one; requests are the script's business). */
+static int encmode;
+static rfbClient *lib[MAXC];
+static int feed[MAXC];
+static int lib_err[MAXC];
 
 static uint32_t fb_get(const char *fb, int w, int bpp, int x, int y) {
   const unsigned char *p = (const unsigned char *)fb + ((size_t)y * w + x) * bpp;
@@ -106,6 +116,9 @@ static int inv_check(int c) {
   static unsigned char *bm = NULL, *bc = NULL; static size_t cap = 0;
   int x, y, dx = cls[c]->copyDX, dy = cls[c]->copyDY;
   if ((size_t)W * H > cap) { cap = (size_t)W * H; bm = realloc(bm, cap); bc = realloc(bc, cap); }
+  /* Raw peers: every bit of the pixel.  LibVNCClient peers: the colour bits of the client's format (ZRLE and
+   * Tight legitimately drop the unused byte of a 32-bit pixel) */
+  uint32_t cmask = lib[c] ? (((uint32_t)pf[c].rmax << pf[c].rs) | ((uint32_t)pf[c].gmax << pf[c].gs) | ((uint32_t)pf[c].bmax << pf[c].bs)) : 0xffffffffu;
   region_bitmap(cls[c]->modifiedRegion, bm);
   region_bitmap(cls[c]->copyRegion, bc);
   for (y = 0; y < H; y++) for (x = 0; x < W; x++) {
@@ -113,10 +126,13 @@ static int inv_check(int c) {
     if (bm[k]) continue;
     if (bc[k]) { qx = x - dx; qy = y - dy; }
     if (qx < 0 || qy < 0 || qx >= pw[c] || qy >= ph[c]) return 0;
-    if (ppic[c][(size_t)qy * pw[c] + qx] != peer_expect(c, fb_get(scr->frameBuffer, W, BPP, x, y))) return 0;
+    { uint32_t got = ppic[c][(size_t)qy * pw[c] + qx], want = peer_expect(c, fb_get(scr->frameBuffer, W, BPP, x, y));
+      if ((got & cmask) != (want & cmask)) { if (getenv("VDBG")) fprintf(stderr, "inv c%d (%d,%d): peer %08x expect %08x\n", c, x, y, got, want); return 0; } }
   }
   return 1;
 }
+
+static int bits_of(int bpp, int rmax) { int b = 0; if (bpp == 1) return 8; while ((1 << b) - 1 < rmax) b++; return b; }
 
 /* ---- peer: decode whatever arrived for client c ---- */
 /* content is undefined after a resize (here 0); a size message with the current size changes nothing */
@@ -128,6 +144,65 @@ static void peer_resize(int c, int w, int h) {
 static void wadd(int c, const char *fmt, ...) {
   va_list ap; size_t n = strlen(wire[c]);
   va_start(ap, fmt); vsnprintf(wire[c] + n, sizeof wire[c] - n, fmt, ap); va_end(ap);
+}
+/* ---- LibVNCClient peers ---- */
+static rfbBool lib_malloc_fb(rfbClient *cl) {
+  free(cl->frameBuffer);
+  cl->frameBuffer = (uint8_t *)calloc((size_t)cl->width * cl->height + 1, cl->format.bitsPerPixel / 8);
+  return cl->frameBuffer != NULL;
+}
+static void lib_set_format(int c, int depth) {
+  rfbPixelFormat *f = &lib[c]->format;
+  f->bitsPerPixel = 8 * pf[c].bpp; f->depth = depth; f->bigEndian = 0; f->trueColour = 1;
+  f->redMax = pf[c].rmax; f->greenMax = pf[c].gmax; f->blueMax = pf[c].bmax;
+  f->redShift = pf[c].rs; f->greenShift = pf[c].gs; f->blueShift = pf[c].bs;
+  lib[c]->si.format = *f;
+}
+static void lib_resize(int c, int w, int h) {
+  if (lib[c]->frameBuffer && lib[c]->width == w && lib[c]->height == h) return;
+  lib[c]->width = w; lib[c]->height = h; lib_malloc_fb(lib[c]);
+}
+static void lib_sync(int c) {
+  int x, y, bpp = lib[c]->format.bitsPerPixel / 8, w = lib[c]->width, h = lib[c]->height;
+  if (!ppic[c] || pw[c] != w || ph[c] != h) { free(ppic[c]); pw[c] = w; ph[c] = h; ppic[c] = (uint32_t *)calloc((size_t)w * h + 1, sizeof(uint32_t)); }
+  for (y = 0; y < h; y++) for (x = 0; x < w; x++) ppic[c][(size_t)y * w + x] = fb_get((const char *)lib[c]->frameBuffer, w, bpp, x, y);
+}
+static void lib_pump(int c) {
+  vs_buf *b = &bufs[c];
+  if (b->n > b->rd) { if (!lib_err[c]) vs_write(feed[c], b->p + b->rd, b->n - b->rd); b->rd = b->n; }
+  while (!lib_err[c]) {
+    struct pollfd p; p.fd = lib[c]->sock; p.events = POLLIN; p.revents = 0;
+    if (lib[c]->buffered == 0 && poll(&p, 1, 0) <= 0) break;
+    if (!HandleRFBServerMessage(lib[c])) { lib_err[c] = 1; wadd(c, " w%d:DECODE-ERROR", c); }
+  }
+  { unsigned char tmp[4096]; while (vs_read_avail(feed[c], tmp, sizeof tmp) > 0) ; }
+  lib_sync(c);
+}
+static int lib_new(int c) {
+  int sv[2], sz = 4 << 20;
+  if (socketpair(AF_UNIX, SOCK_STREAM, 0, sv) < 0) return -1;
+  fcntl(sv[0], F_SETFL, fcntl(sv[0], F_GETFL) | O_NONBLOCK);
+  fcntl(sv[1], F_SETFL, fcntl(sv[1], F_GETFL) | O_NONBLOCK);
+  setsockopt(sv[0], SOL_SOCKET, SO_SNDBUF, &sz, sizeof sz); setsockopt(sv[1], SOL_SOCKET, SO_RCVBUF, &sz, sizeof sz);
+  setsockopt(sv[1], SOL_SOCKET, SO_SNDBUF, &sz, sizeof sz); setsockopt(sv[0], SOL_SOCKET, SO_RCVBUF, &sz, sizeof sz);
+  rfbEnableClientLogging = getenv("VDBG") ? TRUE : FALSE;
+  lib[c] = rfbGetClient(8, 3, 4);
+  if (!lib[c]) return -1;
+  feed[c] = sv[0]; lib[c]->sock = sv[1]; lib_err[c] = 0;
+  lib[c]->MallocFrameBuffer = lib_malloc_fb;
+  lib[c]->canHandleNewFBSize = TRUE;
+  lib[c]->readTimeout = 1;
+  lib_set_format(c, scr->serverFormat.depth);
+  lib[c]->si.framebufferWidth = W; lib[c]->si.framebufferHeight = H;
+  lib[c]->frameBuffer = NULL; lib[c]->width = 0; lib[c]->height = 0;
+  lib_resize(c, W, H);
+  return 0;
+}
+static void lib_free(int c) {
+  if (!lib[c]) return;
+  free(lib[c]->frameBuffer); lib[c]->frameBuffer = NULL;
+  rfbClientCleanup(lib[c]); lib[c] = NULL;
+  close(feed[c]); feed[c] = -1;
 }
 static int peer_parse(int c) {
   vs_buf *b = &bufs[c];
@@ -210,7 +285,7 @@ static int peer_parse(int c) {
 
 static void drain_all(void) {
   int c;
-  for (c = 0; c < ncl; c++) if (peers[c] >= 0 && cls[c]) { vs_drain(peers[c], &bufs[c]); peer_parse(c); }
+  for (c = 0; c < ncl; c++) if (peers[c] >= 0 && cls[c]) { vs_drain(peers[c], &bufs[c]); if (lib[c]) lib_pump(c); else peer_parse(c); }
 }
 
 static void observe(const char *op) {
@@ -233,7 +308,7 @@ static void observe(const char *op) {
            cl->progressiveSliceY, (long)cl->startDeferring.tv_sec, (long)cl->startDeferring.tv_usec);
     if (cl->scaledScreen != cl->screen) printf(" sc=%dx%d", cl->scaledScreen->width, cl->scaledScreen->height);
     else printf(" sc=-");
-    printf(" b=%d sz=%dx%d P=%lu", pbpp[c], pw[c], ph[c], pic_hash_peer(c));
+    printf(" b=%d:%d sz=%dx%d P=%lu", pbpp[c], bits_of(pf[c].bpp, pf[c].rmax), pw[c], ph[c], pic_hash_peer(c));
     if (cl->scaledScreen != cl->screen) {
       /* scaled client (implementation-only cases): report whether the picture is uniform, and its value */
       int x, y, uni = 1; uint32_t v0 = ppic[c][0];
@@ -241,7 +316,7 @@ static void observe(const char *op) {
       printf(" I=- scaled=%dx%d uniform=%d value=%u", cl->scaledScreen->width, cl->scaledScreen->height, uni, (unsigned)v0);
     } else printf(" I=%d", inv_check(c));
   }
-  printf(" | F=%lu S=%dx%dx%d T=%d X=[", pic_hash_fb(), W, H, BPP, scr->deferUpdateTime);
+  printf(" | F=%lu S=%dx%dx%d B=%d T=%d X=[", pic_hash_fb(), W, H, BPP, bits_of(BPP, scr->serverFormat.redMax), scr->deferUpdateTime);
   { rfbScreenInfoPtr q; int first = 1;
     for (q = scr->scaledScreenNext; q; q = q->scaledScreenNext) { printf("%s%dx%d", first ? "" : ";", q->width, q->height); first = 0; } }
   printf("]\n");
@@ -251,7 +326,7 @@ static void observe(const char *op) {
 static void end_case(void) {
   int c;
   if (!scr) return;
-  for (c = 0; c < ncl; c++) { if (peers[c] >= 0) close(peers[c]); peers[c] = -1; free(bufs[c].p); memset(&bufs[c], 0, sizeof bufs[c]); free(ppic[c]); ppic[c] = NULL; }
+  for (c = 0; c < ncl; c++) { lib_free(c); if (peers[c] >= 0) close(peers[c]); peers[c] = -1; free(bufs[c].p); memset(&bufs[c], 0, sizeof bufs[c]); free(ppic[c]); ppic[c] = NULL; }
   { char *fb = scr->frameBuffer; rfbScreenCleanup(scr); free(fb); }
   scr = NULL; ncl = 0;
 }
@@ -303,6 +378,8 @@ static int add_client(void) {
   pf[c].rs = scr->serverFormat.redShift; pf[c].gs = scr->serverFormat.greenShift; pf[c].bs = scr->serverFormat.blueShift;
   ppic[c] = NULL; peer_resize(c, W, H);
   wire[c][0] = 0;
+  lib[c] = NULL; feed[c] = -1;
+  if (encmode && lib_new(c) < 0) return -4;
   ncl++;
   return 0;
 }
@@ -375,6 +452,7 @@ int main(void) {
       printf("%s\n", line); fflush(stdout);
       start_case(w, h, bpp);
       noguard = strstr(rest, " f12") != NULL;
+      encmode = strstr(rest, " enc") != NULL;
       continue;
     }
     if (!scr) continue;
@@ -389,6 +467,18 @@ int main(void) {
       int x1 = a[0], y1 = a[1], x2 = a[2], y2 = a[3], e, x, y;
       mark_norm(&x1, &y1, &x2, &y2, &e);
       if (!e) for (y = y1; y < y2; y++) for (x = x1; x < x2; x++) fb_put(scr->frameBuffer, W, BPP, x, y, draw_value(BPP, a[4], x, y));
+      rfbMarkRectAsModified(scr, a[0], a[1], a[2], a[3]);
+    } else if (!strcmp(op, "drawpal")) {
+      /* drawpal x1 y1 x2 y2 pat k c0 .. c(k-1): a few-colour diagonal pattern (palette encoders) */
+      int x1 = a[0], y1 = a[1], x2 = a[2], y2 = a[3], e, x, y, k = a[5], i, u2 = 0; long cols[64]; char *q = rest;
+      if (n < 6 || k < 1 || k > 64) { printf("o drawpal | ERROR\n"); dead = 1; continue; }
+      for (i = 0; i < 6; i++) { long t; sscanf(q, "%ld%n", &t, &u2); q += u2; }
+      for (i = 0; i < k; i++) { cols[i] = 0; if (sscanf(q, "%ld%n", &cols[i], &u2) == 1) q += u2; }
+      mark_norm(&x1, &y1, &x2, &y2, &e);
+      if (!e) for (y = y1; y < y2; y++) for (x = x1; x < x2; x++) {
+        long long idx = ((long long)x * 3 + (long long)y * 5 + a[4]) % k; if (idx < 0) idx += k;
+        fb_put(scr->frameBuffer, W, BPP, x, y, (uint32_t)cols[idx]);
+      }
       rfbMarkRectAsModified(scr, a[0], a[1], a[2], a[3]);
     } else if (!strcmp(op, "schedcopy") || !strcmp(op, "docopyrgn")) {
       int dx, dy, u2; sraRegionPtr r;
@@ -413,6 +503,7 @@ int main(void) {
       int32_t e[8]; int k = 0; unsigned char m[4 + 4 * 8]; int i;
       if (!live(a[0])) { printf("o setenc | ERROR\n"); dead = 1; continue; }
       if (a[1]) e[k++] = rfbEncodingCopyRect;
+      if (n >= 6 && a[5] != 0) e[k++] = a[5];      /* the preferred pixel encoding ("enc" cases) */
       e[k++] = rfbEncodingRaw;
       if (a[2]) e[k++] = rfbEncodingRichCursor;
       if (a[3]) e[k++] = rfbEncodingNewFBSize;
@@ -421,7 +512,7 @@ int main(void) {
       for (i = 0; i < k; i++) vs_put32(m + 4 + 4 * i, (uint32_t)e[i]);
       client_msg(a[0], m, 4 + 4 * k);
       /* modelling assumption: a client without NewFBSize support knows the size out of band */
-      if (!cls[a[0]]->useNewFBSize) peer_resize(a[0], W, H);
+      if (!cls[a[0]]->useNewFBSize) { peer_resize(a[0], W, H); if (lib[a[0]]) lib_resize(a[0], W, H); }
     } else if (!strcmp(op, "setcursor")) {
       if (a[0] == 0) rfbSetCursor(scr, NULL);
       else {
@@ -443,14 +534,18 @@ int main(void) {
       if (!live(a[0]) || scaled_guard(a[0])) { printf("o send | ERROR\n"); dead = 1; continue; }
       rfbSendFramebufferUpdate(cls[a[0]], cls[a[0]]->modifiedRegion);
     } else if (!strcmp(op, "newfb")) {
-      /* newfb w h bpp seed : fresh buffer with known content, old one freed at once */
+      /* newfb w h bpp seed [bitsPerSample] : fresh buffer with known content, old one freed at once;
+       * the same depth with other bits per sample is a format change too (other maxima and shifts) */
       int w = a[0], h = a[1], bpp = a[2], x, y; char *old = scr->frameBuffer;
-      char *nb = (char *)calloc((size_t)w * h + 1, bpp);
+      int bits = bpp == 1 ? 2 : (n >= 5 ? a[4] : (bpp == 2 ? 5 : 8));
+      char *nb;
+      if (w <= 0 || h <= 0 || !(bpp == 1 || bpp == 2 || bpp == 4) || bits < 1 || bits > (bpp == 2 ? 5 : 10)) { printf("o newfb | ERROR\n"); dead = 1; continue; }
+      nb = (char *)calloc((size_t)w * h + 1, bpp);
       for (y = 0; y < h; y++) for (x = 0; x < w; x++) fb_put(nb, w, bpp, x, y, draw_value(bpp, a[3], x, y));
-      rfbNewFramebuffer(scr, nb, w, h, bpp == 1 ? 2 : (bpp == 2 ? 5 : 8), 3, bpp);
+      rfbNewFramebuffer(scr, nb, w, h, bits, 3, bpp);
       W = w; H = h; BPP = bpp;
       if (free_old) free(old);
-      { int c; for (c = 0; c < ncl; c++) if (cls[c] && !cls[c]->useNewFBSize) peer_resize(c, W, H); }
+      { int c; for (c = 0; c < ncl; c++) if (cls[c] && !cls[c]->useNewFBSize) { peer_resize(c, W, H); if (lib[c]) lib_resize(c, W, H); } }
     } else if (!strcmp(op, "newfbu") || !strcmp(op, "fill")) {
       /* implementation-only ops (scaled clients, F12): uniform content.  newfbu w h bpp v | fill v */
       if (!strcmp(op, "fill")) {
@@ -489,6 +584,7 @@ int main(void) {
       vs_send_pixfmt(peers[c], 8 * b, depth, 0, 1, rmax, gmax, bmax, rs, gs, bs);
       rfbProcessClientMessage(cls[c]);
       pbpp[c] = b; pf[c].bpp = b; pf[c].rmax = rmax; pf[c].gmax = gmax; pf[c].bmax = bmax; pf[c].rs = rs; pf[c].gs = gs; pf[c].bs = bs;
+      if (lib[c]) { lib_pump(c); lib_set_format(c, depth); lib_malloc_fb(lib[c]); }
       m[0] = 3; m[1] = 0; vs_put16(m + 2, 0); vs_put16(m + 4, 0); vs_put16(m + 6, W); vs_put16(m + 8, H);
       client_msg(c, m, 10);
     } else if (!strcmp(op, "setscale")) {
